@@ -236,6 +236,19 @@ package stdlib
 //@ func kfSelect$1
 //@   ensures [bad-type] !int_ok(app((*args)[1], context)) ==> result == "<BAD-TYPE>"
 //@   assert at "return selectField(" : $arg0 == app((*args)[0], context) && $arg1 == atoi(app((*args)[1], context))
+// ---- C11: lookup / load / path / format pass exactly their arguments on ----
+// lookup: the table's value for the key, "" for an unknown key; haskey: "1" exactly for known keys
+//@ func kfLookupKey$1
+//@   ensures [value] result == (if in_dom(*lookup, app((*args)[0], context)) then map_get(*lookup, app((*args)[0], context)) else "")
+//@ func kfHasKey$1
+//@   ensures [known] result == (if in_dom(*lookup, app((*args)[0], context)) then "1" else "")
+//@ func kfLoadFile$1
+//@   ensures result == *sContent
+// format: fmt.Sprintf receives the format and then every further argument's value, in order
+//@ func kfFormat$1
+//@   assert at "return fmt.Sprintf(format, printArgs...)" : $arg0 == app((*args)[0], context) && len($arg1) == len(*args) - 1 && (forall j in [0, len(*args) - 1) :: iface_str($arg1[j]) == app((*args)[j + 1], context))
+//@   loop 1 invariant ref(rangeslice()) == ref(*args) && off(rangeslice()) == off(*args) + 1 && len(rangeslice()) == len(*args) - 1 && len(printArgs) == len(*args) - 1 && fresh(printArgs) && format == app((*args)[0], context)
+//@   loop 1 invariant forall j in [0, rangeindex + 1) :: iface_str(printArgs[j]) == app((*args)[j + 1], context)
 // {@in val list}: "1" exactly when val is a key of the set, and the set is built from exactly the
 // elements strings.Split hands out (every element goes in, nothing else does)
 //@ func kfArrayIn
